@@ -35,6 +35,7 @@ func main() {
 	vocab := flag.String("vocab", "", "with -dump-anchors: file of identifiers that rules use inside patterns; unexported functions and fields of those names are frozen too")
 	idiomCensus := flag.Bool("idiom-census", false, "debug: list every hit of the generic defect idioms in the module")
 	mergeCensus := flag.Bool("merge-census", false, "debug: list every two-cursor merge loop with the verdict of the merge-progress idiom")
+	siblingCensus := flag.Bool("sibling-census", false, "debug: compare the guard sets of the shared calls inside every family of same-named methods")
 	siblings := flag.String("siblings", "", "debug: compare the call/guard profiles of a family of sibling functions (comma separated specs)")
 	flag.Parse()
 	if *dumpAnchors {
@@ -222,6 +223,18 @@ func main() {
 			return
 		}
 		for _, l := range prog.MergeCensus() {
+			fmt.Println(l)
+		}
+		return
+	}
+	if *siblingCensus {
+		prog, err := an.Load(*repo)
+		if err != nil {
+			fmt.Println(err)
+			os.Exit(2)
+		}
+		prog.DisableInline = true
+		for _, l := range props.SiblingCensus(&an.Ctx{P: prog, Prop: "census", Tier: "quick", Start: time.Now(), VerifDir: *verif, Extra: map[string]any{}}) {
 			fmt.Println(l)
 		}
 		return
